@@ -3,9 +3,9 @@ package c19
 
 import (
 	"bytes"
+	"fmt"
 	"github.com/hashicorp/hcl/v2/ext/dynblock"
 	"github.com/hashicorp/hcl/v2/hcldec"
-	"fmt"
 	"strings"
 
 	"github.com/hashicorp/hcl/v2"
@@ -197,9 +197,9 @@ func bodyCases() []bodyCase {
 	var out []bodyCase
 	for name, t := range map[string]cty.Type{
 		"number": cty.Number, "bool": cty.Bool, "list(number)": cty.List(cty.Number), "map(number)": cty.Map(cty.Number),
-		"object{a=map(number)}": cty.Object(map[string]cty.Type{"a": cty.Map(cty.Number)}),
+		"object{a=map(number)}":   cty.Object(map[string]cty.Type{"a": cty.Map(cty.Number)}),
 		"object{a=number,b=bool}": cty.Object(map[string]cty.Type{"a": cty.Number, "b": cty.Bool}),
-		"tuple[map(number)]": cty.Tuple([]cty.Type{cty.Map(cty.Number)}), "set(bool)": cty.Set(cty.Bool),
+		"tuple[map(number)]":      cty.Tuple([]cty.Type{cty.Map(cty.Number)}), "set(bool)": cty.Set(cty.Bool),
 	} {
 		out = append(out, bodyCase{"attr:" + name, one, attr(t), false})
 	}
